@@ -524,6 +524,23 @@ def check_conversions(facts, out, by_ty):
             continue
         structs = find_structs(hfn, tgt)
         fnp = m[0]['path']
+        helper_lets = None
+        if not structs:
+            # one level of helper: `Self::from_parts(a, b, ..)` whose body holds the literal
+            tail = hfn['body'].get('expr') if hfn['body'].get('k') == 'block' else hfn['body']
+            if isinstance(tail, dict) and tail.get('k') == 'call' and tail['f'].get('k') == 'path':
+                h2 = facts.hir.get(tail['f'].get('def'))
+                if h2 is not None and find_structs(h2, tgt):
+                    caller_lets = let_bindings(hfn)
+                    helper_lets = dict(let_bindings(h2))
+                    for pp, arg in zip(h2['params'], tail['args']):
+                        if pp.get('k') != 'bind':
+                            continue
+                        a2 = arg
+                        if isinstance(a2, dict) and a2.get('k') == 'local' and a2['name'] in caller_lets:
+                            a2 = caller_lets[a2['name']]
+                        helper_lets[pp['name']] = a2
+                    structs = find_structs(h2, tgt)
         if not structs:
             if kind == 'from_state' and tgt == src_adt:
                 continue
@@ -537,7 +554,7 @@ def check_conversions(facts, out, by_ty):
             continue
         n_impls += 1
         st = structs[-1]
-        lets = let_bindings(hfn)
+        lets = helper_lets if helper_lets is not None else let_bindings(hfn)
         pname = hfn['params'][0].get('name') if hfn['params'] and hfn['params'][0].get('k') == 'bind' else None
         tfields = [f['name'] for f in facts.adts[tgt]['variants'][0]['fields']]
         given = {f['n']: f for f in st['fields']}
@@ -590,6 +607,8 @@ def _check_field_init(facts, kind, tgt, fname, e, lets, pname, state_of, decoder
             return False, 'field `%s` is initialised from local `%s` of unknown origin' % (fname, e['name'])
         fc2 = field_chain(init)
         if fc2 is None:
+            if kind == 'default':
+                return True, ''
             return False, 'field `%s`: local `%s` is not a field of the source' % (fname, e['name'])
         root, names = fc2
         if names[-1] != want:
